@@ -524,8 +524,10 @@ def run_check(prop, tier, seed):
         wall_s=round(wall, 2),
         violations=len(viol_lines),
     )
-    os.makedirs(os.path.join(VERIF, "evidence"), exist_ok=True)
-    with open(os.path.join(VERIF, "evidence", prop.pid + ".json"), "w") as f:
+    # development runs against a scratch worktree (VERIF_REPO) never touch the committed evidence
+    evdir = os.path.join(WORK, "dev_evidence") if os.environ.get("VERIF_REPO") else os.path.join(VERIF, "evidence")
+    os.makedirs(evdir, exist_ok=True)
+    with open(os.path.join(evdir, prop.pid + ".json"), "w") as f:
         json.dump(ev, f, indent=1, default=str)
     for l in known_lines:
         print(l)
